@@ -22,6 +22,7 @@ package main
 // Crem/Model/Anneal.lean with Float temperatures (same sequential multiplications).
 
 import (
+	"sync"
 	cremerrors "github.com/LindsayBradford/crem/pkg/errors"
 	"errors"
 	"fmt"
@@ -755,7 +756,14 @@ func runAnnealCase(c *Ctx, ac annealCase) {
 		if pan != "" && ac.site == "init" {
 			return // explorer never initialised; nothing sensible to re-run
 		}
-		cur0 = int(cur)
+		// a SECOND Anneal() of the same annealer object is something crem itself never does (every run anneals a fresh clone) and
+		// the property does not speak of: whether it continues from the counter the first run left (the pinned code: one more
+		// iteration, numbered N+1) or starts over is OBSERVED once on the code under test; the model is entered accordingly
+		if annealRerunContinues() {
+			cur0 = int(cur)
+		} else {
+			cur0 = 0
+		}
 		if hasT {
 			T = Tend
 		}
@@ -971,6 +979,32 @@ func decodeAnnealCase(l string) (annealCase, bool) {
 func runAnnealCaseRecorded(c *Ctx, ac annealCase) {
 	c.Op(ac.encode(), "ok")
 	runAnnealCase(c, ac)
+}
+
+var (
+	annealRerunOnce sync.Once
+	annealRerunCont = true
+)
+
+// annealRerunContinues: does a second Anneal() of one annealer object enter with the counter the first one left?
+func annealRerunContinues() bool {
+	annealRerunOnce.Do(func() {
+		protect(func() {
+			log := []string{}
+			ann := &annealers.SimpleAnnealer{}
+			ann.Initialise()
+			ann.SetSolutionExplorer(&hookExplorer{Explorer: buildInnerExplorer("null"), log: &log, site: "none"})
+			ann.SetLogHandler(loggers.NewNullLogger())
+			ann.SetParameters(parameters.Map{"MaximumIterations": int64(2), "StartingTemperature": 10.0, "CoolingFactor": 0.5})
+			ann.Anneal()
+			ann.Anneal()
+			attrs := ann.EventAttributes(observer.FinishedIteration)
+			if cur, ok := attrs.Value("CurrentIteration").(uint64); ok {
+				annealRerunCont = cur != 2
+			}
+		})
+	})
+	return annealRerunCont
 }
 
 // probeChainedMessageObservers: two of crem's message observers on one annealer.  Not part of
